@@ -1714,7 +1714,7 @@ def protocol_steps(A: Analysis, fn: FuncInfo, depth: int = 2) -> list[str]:
 @prop(
     "C17",
     technique="sibling agreement: ordered protocol-step extraction (resolved callees, helper inlining bound 2) from the sync/async run functions and the sync/async workflow expanders",
-    decides="the two run functions perform the same result-affecting protocol steps in the same order (lock name, hit test, populate, Result state, hooks, task body, outputs, error marking, record, save, restore, hash check), and the two workflow expanders agree on construct -> execution_graph -> return_values -> get_runnable_tasks -> loop condition -> rerun expression; the worker's run() forwards to the job's run function with the same rerun value; the scheduler's done/errored decision for a queued job is not taken from the cache alone (known findings: it is).",
+    decides="the two run functions perform the same result-affecting protocol steps in the same order (lock name, hit test, populate, Result state, hooks, task body, outputs, error marking, record, save, restore, hash check), and the two workflow expanders agree on construct -> execution_graph -> return_values -> get_runnable_tasks -> loop condition -> rerun expression; the worker's run() forwards to the job's run function with the same rerun value; the scheduler's done/errored decision for a queued job is not taken from the cache alone (known findings: it is). Additionally: both expanders have the same exits outside their scheduling loop.",
     not_decided="equality of outputs across workers and schedules (behavioural; the premise is task determinism).",
     level_note="Audited exceptions: os.chdir(cache_dir) and audit_task only in the sync run function; `self._errored = True` only in run_async (each listed in rules/runfn.py with its reason).",
 )
@@ -2059,7 +2059,7 @@ def _dict_get(d: ast.Dict, key: str):
 @prop(
     "C36",
     technique="pairing over the exception CFG (start/end record calls around the task body) + record-shape agreement + shared-state re-entrancy rule over the resolved call graph (SCC through Job.run)",
-    decides="(a) start_audit dominates the task body and finalize_audit is reached on every path out of it in both run functions; the start record ('@type': 'job', startedAtTime) and the end record (endedAtTime, errored) are sent under AuditFlag.PROV with the same '@id' expression, the end record's errored is result.errored of the Result that is saved; (b) the attribute carrying the activity id between start and end lives on an object that is not shared between re-entrant activations of the run function.",
+    decides="(a) start_audit dominates the task body and finalize_audit is reached on every path out of it in both run functions; the start record ('@type': 'job', startedAtTime) and the end record (endedAtTime, errored) are sent under AuditFlag.PROV with the same '@id' expression, the end record's errored is result.errored of the Result that is saved; (b) the attribute carrying the activity id between start and end lives on an object that is not shared between re-entrant activations of the run function. Additionally: nothing that may raise lies between start_audit and the try whose finally calls finalize_audit; finalize_audit has no return before the end record; per-job record state is not kept by mutating a container created in Audit.__init__ while jobs get shallow copies.",
     not_decided="message transport (messengers), JSON-LD validity, resource-monitor records.",
     level_note="Trusted: resolved call graph (class-hierarchy analysis) for the re-entrancy argument.",
 )
